@@ -565,12 +565,7 @@ func (e *engine) qdiff(ss *sqlh.Session, sess string, args, q map[string]any, ex
 				return e.fail("QDiff", what, exp, err.Error())
 			}
 			fex, tex := td["fex"].(bool), td["tex"].(bool)
-			if what == "dolt_commit_diff_<t>" && fex && !tex && len(rows) == 0 && (len(exp) > 0 || e.r.Bd.Filler > 0) {
-				// candidate known finding: the system table is empty when the table does not exist in to_commit
-				// (DiffPartition.isDiffablePartition: dp.to == nil), while dolt_diff() lists the removed rows
-				e.soft = append(e.soft, common.Fail(e.stepNo, "QDiff", "dolt_commit_diff_<t> empty when the table is absent in to_commit", exp, got))
-				return nil
-			}
+			// (dolt_commit_diff_<t> with the table absent in to_commit lists every row as removed since dolt 8e806b7)
 			wantFiller := 0
 			if fex != tex {
 				wantFiller = e.r.Bd.Filler
